@@ -367,3 +367,41 @@ func vh_C02_L5_t3_never_gives_up() {
 	vassert(a.cwnd >= a.MTU(), "the congestion window never falls below one MTU")
 	vcover("end")
 }
+
+// C02.L7: T3 runs whenever data is outstanding. Three chunks in flight with T3 running; then
+// an acknowledgement arrives by either route — a SACK (symbolic cumulative ack within the
+// flight, optional gap block) or a SHUTDOWN chunk carrying a cumulative ack — followed by
+// the writer's pass: if anything is still in flight afterwards, T3 is running.
+func vh_C02_L7_t3_runs_while_data_in_flight() {
+	f := vInFlight(3, vPick(2) == 1)
+	a := f.a
+	a.t3RTX.start(a.rtoMgr.getRTO())
+	adv := uint32(vPick(4)) // 0..3 chunks acknowledged cumulatively
+	a.rwnd = 0              // and the peer's window stays closed: nothing new can leave
+	if vPick(2) == 0 {
+		var gaps []gapAckBlock
+		if adv < 2 && vPick(2) == 1 {
+			gaps = []gapAckBlock{{2, 2}}
+		}
+		vassert(vDeliver(a, &chunkSelectiveAck{cumulativeTSNAck: f.base + adv, advertisedReceiverWindowCredit: 0, gapAckBlocks: gaps}) == nil, "SACK ok")
+	} else {
+		vassert(vDeliver(a, &chunkShutdown{cumulativeTSNAck: f.base + adv}) == nil, "SHUTDOWN ok")
+	}
+	_ = vWriterWake(a)
+	outstanding := 0
+	for i := 0; i < a.inflightQueue.size(); i++ {
+		if c := a.inflightQueue.chunks.At(i); !c.acked {
+			outstanding++
+		}
+	}
+	if outstanding > 0 {
+		vassert(a.t3RTX.isRunning(), "T3 is running whenever unacknowledged data is in flight")
+	}
+	vobserve("out", uint64(outstanding))
+	vcover("end")
+}
+
+// C02.L8: the retransmission machinery the progress argument rests on (obligations of C19 / C07).
+func vh_C02_L8_backoff_capped_by_configured_rto_max() { vh_C19_L3_armed_duration() }
+func vh_C02_L8_t3_survives_stop_expiry_races()       { vh_C19_L3_retry_law() }
+func vh_C02_L8_skip_never_covers_reliable_data()     { vh_C07_L2_advance_only_over_abandoned() }
